@@ -1408,7 +1408,7 @@ def interp_envelope(X, mode='upper', interp_method='splrep', extrema_opts=None,
         return None
 
     # Run interpolation on envelope
-    t = np.arange(locs[0], locs[-1])
+    t = np.arange(np.ceil(locs[0]), locs[-1])
     if interp_method == 'splrep':
         f = interp.splrep(locs, pks)
         env = interp.splev(t, f)
@@ -1419,7 +1419,7 @@ def interp_envelope(X, mode='upper', interp_method='splrep', extrema_opts=None,
         pchip = interp.pchip(locs, pks)
         env = pchip(t)
 
-    t_max = np.arange(locs[0], locs[-1])
+    t_max = t
     tinds = np.logical_and((t_max >= 0), (t_max < X.shape[0]))
 
     env = np.array(env[tinds])
